@@ -24,6 +24,11 @@ without blocks has no data section. -/
 theorem parseNew_cfgWF (toks : List String) : CfgWF (parseNew toks) :=
   cfgWF_of_blocks _ (parseNew_blocks toks)
 
+/-- **parseNew_blocksHaveData.** … and the converse (`Cfg.blocksHaveData`, the configuration hypothesis of
+C04 `no_panic_full_partial`): a piece that has blocks has a non-padding section. -/
+theorem parseNew_blocksHaveData (toks : List String) : (parseNew toks).blocksHaveData = true :=
+  blocksHaveData_of_blocks _ (parseNew_blocks toks)
+
 /-- **initSt_initLike.** The driver's initial state (nothing on disk) is `InitLike`, for every `new` line. -/
 theorem initSt_initLike (toks : List String) (magnet : Bool) : InitLike (initSt (parseNew toks) magnet) := by
   refine ⟨parseNew_cfgWF toks, badWF_dataSects _ rfl, rfl, rfl, rfl, rfl, rfl, rfl, rfl, rfl, rfl, rfl, rfl, rfl,
@@ -39,20 +44,22 @@ theorem initSt_seeded_initLike (toks : List String) (magnet : Bool) (fe kn : Lis
 
 /-- **driver_new_initLike.** The state `stepDriver` installs for a `new` line — `initSt`, the `seeded=1`
 replacement of the disk image, and the configuration values it copies into the state — is `InitLike` and has
-no verify pending, no metadata download and no hanging tracker: the hypotheses of every `…_run` theorem. -/
+no verify pending, no hanging tracker, no panic, no piece write in flight, and its configuration satisfies
+`Cfg.blocksHaveData`: the hypotheses of every `…_run` theorem, C04 `no_panic_full_partial` included. -/
 theorem driver_new_initLike (toks : List String) (magnet seeded iaa : Bool) (nu no isz mm pm : Nat) :
     let c := parseNew toks
     let s := initSt c magnet
     let s := if seeded then { s with known := c.flens.map (fun _ => true), fileExists := c.flens.map (fun _ => true), bad := [] } else s
     let s := { s with nUnchoke := nu, nOptimistic := no }
     let s := { s with infoAtAdd := iaa, isize := isz, maxMeta := mm, parMeta := pm }
-    InitLike s ∧ s.doVerify = false ∧ s.stopHang = false ∧ s.panicked = none := by
+    InitLike s ∧ s.doVerify = false ∧ s.stopHang = false ∧ s.panicked = none ∧
+      s.cfg.blocksHaveData = true ∧ s.writing = none := by
   dsimp only
   cases seeded
   · exact ⟨⟨parseNew_cfgWF toks, badWF_dataSects _ rfl, rfl, rfl, rfl, rfl, rfl, rfl, rfl, rfl, rfl, rfl, rfl, rfl,
-      rfl, rfl, rfl⟩, rfl, rfl, rfl⟩
+      rfl, rfl, rfl⟩, rfl, rfl, rfl, parseNew_blocksHaveData toks, rfl⟩
   · exact ⟨⟨parseNew_cfgWF toks, (fun x hx => by cases hx), rfl, rfl, rfl, rfl, rfl, rfl, rfl, rfl, rfl, rfl, rfl, rfl,
-      rfl, rfl, rfl⟩, rfl, rfl, rfl⟩
+      rfl, rfl, rfl⟩, rfl, rfl, rfl, parseNew_blocksHaveData toks, rfl⟩
 
 /-! Non-vacuity: the layout `parseNew` builds for `pl=16384 files=16384:0,16384:1,100:0` (a data file, a
 padding file, a short data file): the padding-only piece has no block — and no data section (`CfgWF`).
@@ -64,5 +71,6 @@ private def c3 : Cfg :=
 example : cfgBlocks c3 = [[(0, 16384)], [], [(0, 100)]] := by decide
 example : (c3.sections 1).map (fun sc => (sc.file, sc.len, c3.isData sc)) = [(1, 16384, false)] := by decide
 example : CfgWF { c3 with blocks := cfgBlocks c3 } := cfgWF_of_blocks _ rfl
+example : ({ c3 with blocks := cfgBlocks c3 } : Cfg).blocksHaveData = true := blocksHaveData_of_blocks _ rfl
 
 end Rain.Props.C01LoopCfg
